@@ -211,7 +211,11 @@ def gen(rng, idx, tier):
         rng.shuffle(vfs)
         ds["variableFonts"] = vfs
         multi = True
+    # a sibling family compiled earlier in the same session: same axis names / tags and master
+    # design locations, but no axis mapping (its user coordinates ARE the design coordinates)
+    prior = bool(varfea and (ds.get("meta") or {}).get("axis_map") and rng.random() < 0.35)
     return {"stratum": stratum, "ds": ds, "func": func, "variableFeatures": varfea,
+            "prior_unmapped_sibling": prior,
             "multi_vf": multi, "filters": filters, "legacy_kern_writer": legacy,
             "lib": rng.choice(["defcon", "ufoLib2"])}
 
@@ -355,6 +359,24 @@ def run(case):
         import ufo2ft.filters as F
         fkw["filters"] = [...] + [getattr(F, n)(pre=True) for n in case["filters"]]
         bump("prefilter_cases")
+    if case.get("prior_unmapped_sibling"):
+        import copy
+        from vf.ref import varmodel as V_
+        sib = copy.deepcopy(ds)
+        sib.pop("variableFonts", None)
+        for ax in sib["axes"]:
+            if ax.get("map"):
+                dvals = [m[1] for m in ax["map"]]
+                ax["min"], ax["max"] = min(dvals), max(dvals)
+                d_ = float(V_.full_location(ds["axes"], {})[ax["name"]])
+                ax["default"] = int(d_) if d_ == int(d_) else d_
+                del ax["map"]
+        try:
+            sdoc, _ = build_designspace(sib, case["lib"])
+            getattr(ufo2ft, func)(sdoc, variableFeatures=True, useProductionNames=False)
+            bump("sessions_that_compiled_an_unmapped_sibling_family_first")
+        except Exception:  # noqa: BLE001 - only the history matters
+            bump("sibling_family_failed")
     targets = []     # (variable font name, saved bytes, source indices, axis tags kept | None)
     try:
         if case.get("multi_vf"):
